@@ -47,9 +47,32 @@ template <typename S, std::size_t N> std::string nd_forms(const S & s) {
         if (any) os << ";"; any = true; for (std::size_t k = 0; k < N; ++k) { if (k) os << sep.at(0); os << static_cast<u64>(t[k]) + off.at(k); } }, s);
       out[2] = any ? os.str() : "-"; }
   } catch (const std::exception & e) { return std::string("bad callback form died: ") + e.what(); }
+  { // (d) a plain function pointer (a static function writing into a thread-local sink)
+    static thread_local std::ostringstream * sink = nullptr; static thread_local bool any4 = false;
+    std::ostringstream os; sink = &os; any4 = false;
+    void (*fp)(S) = +[](S t) { if (any4) *sink << ";"; any4 = true; for (std::size_t k = 0; k < N; ++k) { if (k) *sink << ","; *sink << static_cast<u64>(t[k]); } };
+    try { utility::nd_map<S>(fp, s); } catch (const std::exception & e) { return std::string("bad function-pointer callback died: ") + e.what(); }
+    std::string o4 = any4 ? os.str() : "-";
+    if (o4 != out[0]) return "bad function-pointer callback saw " + o4.substr(0, 200) + " | closure saw " + out[0].substr(0, 200);
+  }
   if (out[1] != out[0]) return "bad std::function callback saw " + out[1].substr(0, 200) + " | closure saw " + out[0].substr(0, 200);
   if (out[2] != out[0]) return "bad owning temporary callback saw " + out[2].substr(0, 200) + " | closure saw " + out[0].substr(0, 200);
   return out[0];
+}
+// large boxes: every tuple is ranked (row-major) and ticked off in a bitmap -> "<calls> <cells never visited> <visited twice or more> <outside>"
+template <std::size_t N> std::string nd_big(const std::vector<u64> & sz) {
+  using S = utility::nd_size<N>;
+  S s; u64 total = 1; for (std::size_t k = 0; k < N; ++k) { s[k] = sz[k]; total *= sz[k]; }
+  std::vector<bool> seen(total, false);
+  u64 calls = 0, dup = 0, outside = 0;
+  utility::nd_map<S>([&](S t) {
+    ++calls; u64 r = 0; bool in = true;
+    for (std::size_t k = 0; k < N; ++k) { if (t[k] >= sz[k]) in = false; r = r * sz[k] + t[k]; }
+    if (!in) { ++outside; return; }
+    if (seen[r]) ++dup; else seen[r] = true;
+  }, s);
+  u64 missed = 0; for (u64 r = 0; r < total; ++r) if (!seen[r]) ++missed;
+  return std::to_string(calls) + " " + std::to_string(missed) + " " + std::to_string(dup) + " " + std::to_string(outside);
 }
 template <typename T, std::size_t N> std::string ndmt(const std::vector<u64> & sz) {
   using S = covfie::array::array<T, N>;
@@ -88,6 +111,8 @@ int main() {
     } else if (op == "ndmapt") { std::string ty; std::size_t N; is >> ty >> N; std::vector<u64> sz(N); for (auto & s : sz) is >> s;
       if (ty == "u8") r = ndmtN<std::uint8_t>(N, sz); else if (ty == "u16") r = ndmtN<std::uint16_t>(N, sz);
       else if (ty == "u32") r = ndmtN<std::uint32_t>(N, sz); else if (ty == "i32") r = ndmtN<std::int32_t>(N, sz);
+    } else if (op == "ndbig") { std::size_t N; is >> N; std::vector<u64> sz(N); for (auto & s : sz) is >> s;
+      switch (N) { case 1: r = nd_big<1>(sz); break; case 2: r = nd_big<2>(sz); break; case 3: r = nd_big<3>(sz); break; case 4: r = nd_big<4>(sz); break; }
     } else if (op == "ndmap") { std::size_t N; is >> N; std::vector<u64> sz(N); for (auto & s : sz) is >> s;
       switch (N) { case 1: r = ndm<1>(sz); break; case 2: r = ndm<2>(sz); break; case 3: r = ndm<3>(sz); break; case 4: r = ndm<4>(sz); break; case 5: r = ndm<5>(sz); break; }
     }
